@@ -40,6 +40,18 @@ let string_of_str (l : n list) : string =
   List.iter (fun c -> let k = int_of_n c in if k < 128 then Buffer.add_char b (Char.chr k) else Buffer.add_string b (Printf.sprintf "\\u{%x}" k)) l;
   Buffer.contents b
 
+(* arbitrary-size positive -> decimal string (double-and-add on a little-endian digit list) *)
+let dec_of_pos (p : positive) : string =
+  let rec bits p acc = match p with XH -> 1 :: acc | XO q -> bits q (0 :: acc) | XI q -> bits q (1 :: acc) in
+  let step digits b =
+    let rec go ds carry = match ds with
+      | [] -> if carry = 0 then [] else [carry]
+      | d :: t -> let v = 2 * d + carry in (v mod 10) :: go t (v / 10) in
+    go digits b in
+  let ds = List.fold_left step [] (bits p []) in
+  String.concat "" (List.rev_map string_of_int ds)
+let dec_of_z (x : z) : string = match x with Z0 -> "0" | Zpos p -> dec_of_pos p | Zneg p -> "-" ^ dec_of_pos p
+
 (* ---------------------------------------------------------------- dumps *)
 let b01 b = if b then "1" else "0"
 
@@ -386,6 +398,30 @@ let handle (line : string) : string =
     (match denotes frc (abs_state p) (str_of_string f.(3)) with
      | Some m -> fen_of (makemove true p (enc p m))
      | None -> f.(2))
+  | "style" ->
+    (* style <k=v;...>: integer statistics of style.py; lists are comma separated, game_length is idx:freq pairs *)
+    let tbl = Hashtbl.create 64 in
+    List.iter (fun tok -> match String.index_opt tok '=' with
+        | Some i -> Hashtbl.replace tbl (String.sub tok 0 i) (String.sub tok (i + 1) (String.length tok - i - 1))
+        | None -> ()) (String.split_on_char ';' f.(1));
+    let qi (s : string) : q = { qnum = z_of_int (int_of_string s); qden = XH } in
+    let g k = qi (Hashtbl.find tbl k) in
+    let gl k = let v = Hashtbl.find tbl k in if v = "" then [] else List.map qi (String.split_on_char ',' v) in
+    let glen = let v = Hashtbl.find tbl "game_length" in
+      if v = "" then [] else List.map (fun it -> match String.split_on_char ':' it with [a; b] -> (qi a, qi b) | _ -> failwith "gl") (String.split_on_char ',' v) in
+    let st = { num_wins = g "num_wins"; num_draws = g "num_draws"; num_losses = g "num_losses"; num_games = g "num_games";
+               castle_same = g "castle_same"; castle_opposite = g "castle_opposite"; total_captures = g "total_captures";
+               total_noncaptures = g "total_noncaptures"; total_moves = g "total_moves"; checks = g "checks"; nonchecks = g "nonchecks";
+               early_captures = g "early_captures"; mid_captures = g "mid_captures"; late_captures = g "late_captures";
+               extreme_captures = g "extreme_captures"; capture_distance = gl "capture_distance";
+               noncapture_distance = gl "noncapture_distance"; game_length = glen; short_games = g "short_games";
+               medium_games = g "medium_games"; long_games = g "long_games"; extreme_games = g "extreme_games";
+               num_win_ahead = g "num_win_ahead"; num_win_equal = g "num_win_equal"; num_win_behind = g "num_win_behind";
+               early_pawn_pushes = gl "early_pawn_pushes"; mid_pawn_pushes = gl "mid_pawn_pushes"; late_pawn_pushes = gl "late_pawn_pushes";
+               total_pawn_pushes = g "total_pawn_pushes"; total_pawn_pushes_towards_king = g "total_pawn_pushes_towards_king";
+               num_rook_threats = g "num_rook_threats"; num_bishop_threats = g "num_bishop_threats" } in
+    let sr r = match r with NoGames -> "None" | Raised -> "Raised" | Score x -> dec_of_z x.qnum ^ "/" ^ dec_of_pos x.qden in
+    Printf.sprintf "valid=%s agg=%s pos=%s pp=%s" (b01 (Model.is_valid st)) (sr (aggression_score st)) (sr (positional_score st)) (sr (pawn_pusher_score st))
   | "valid" ->
     (match set_fen false false (str_of_string f.(1)) with Some _ -> "1" | None -> "0")
   | c -> failwith ("unknown command " ^ c)
